@@ -49,12 +49,6 @@ def gen_cases(r, tier):
 def main(tier, seed):
     res = Result("C11", tier, seed)
     res.gate = coq_gate("C11.v", clean=(tier == "thorough"))
-    if tier == "thorough":
-        ok, out = coqchk("C11.v")
-        res.extra["coqchk"] = out[-600:]
-        if not ok:
-            res.gate["ok"] = False
-            res.gate["problems"].append("coqchk failed: " + out[-400:])
     build_harness(); build_model()
     r = random.Random(seed)
     pair = Pair(compare_journal=False)
